@@ -371,6 +371,9 @@ class BstrField(CborField):
             return None
 
     def m2i(self, pkt, x):
+        if isinstance(x, int):
+            # bytes() of an integer is a zero-filled string, not a conversion
+            return None
         try:
             return bytes(x)
         except TypeError:
